@@ -40,8 +40,13 @@ CLAIMED["C01"] = dict(
          "the deliveries on a stream - ordered or unordered - are the messages of a duplicate-free list of sent "
          "fragment lists (counting invariant of pop_messages: every chunk is retained or consumed by exactly one "
          "delivered run), also for all streams at once with arbitrary FORWARD-TSN chunks interleaved (theorem 8); "
-         "str/bytes/empty values round-trip through four distinct PPIDs (8 theorems). PARTIAL: "
-         "'eventually delivered after the network heals' is observed by the two-endpoint scenario oracle.",
+         "COMPLETE DELIVERY: once every chunk of a stream's ordered messages has been accepted, all of them have been "
+         "delivered - the pop loop stops only where the next message is incomplete and every queued chunk is still "
+         "queued or part of a delivered message (theorem 9); "
+         "str/bytes/empty values round-trip through four distinct PPIDs (9 theorems). PARTIAL: "
+         "'eventually delivered after the network heals' over two endpoints composes theorem 9 with C02's closed loop "
+         "(C02_closed_loop, one direction, in-order suffix); the general two-endpoint statement is observed by the "
+         "scenario oracle.",
     design_ref="5 / C01",
     note="Network faults are abstracted as an arbitrary arrival list over sent chunks; SACK-path faults cannot "
          "influence what the receiver delivers. Tie: receiver-level differential run (extracted model vs real "
@@ -106,8 +111,11 @@ CLAIMED["C02"] = dict(
          "and a decreasing measure; the acknowledgement of that continuation is the one the receiver model sends "
          "when the outstanding chunks arrive in order; every SCTP timer is armed with a delay in [1 s, 60 s] after "
          "ANY history of round-trip measurements, NaN / infinite / negative ones included (Model/Rto.v: _update_rto "
-         "in primitive IEEE-754 floats, bit-exact) (7 theorems). PARTIAL: the full closed loop of two endpoints "
-         "within bounded time (SACK delay, when timers fire, reordering in the suffix, both directions) is observed "
+         "in primitive IEEE-754 floats, bit-exact); THE CLOSED LOOP: from any reachable sender state and a receiver in "
+         "sync with it, when the outstanding chunks arrive in order the receiver MODEL's own SACKs drive the sender "
+         "MODEL to quiescence within 2*(outstanding+queued) rounds and the receiver has cumulatively received every "
+         "TSN that was outstanding or queued (8 theorems). PARTIAL: delayed SACKs, reordering inside the fault-free "
+         "suffix, both directions at once, abandonment during the suffix and when timers actually fire are observed "
          "on the two-endpoint simulator (fault prefix + fault-free suffix), not proved.",
     design_ref="5 / C02",
     note="Sender model tied to a real RTCSctpTransport (ESTABLISHED; _send_chunk, timers, ensure_future recorded) by "
@@ -287,8 +295,11 @@ CLAIMED["C05"] = dict(
          "phase and the association must afterwards drain and deliver probe messages; all real parsers are run on "
          "each generated datagram with a per-datagram time budget.",
     design_ref="5 / C05",
-    note="The theorems are about the models; the tie is the correspondence of C07/C08/C16 sub-cases re-run here. "
-         "The DTLS receive loop and rtcrtpreceiver per-packet work are exercised by the oracle only.",
+    note="The theorems are about the models; the tie is the correspondence of C07/C08/C16 sub-cases and of C01's "
+         "receive-data-path cases (small receiver windows, SACK serialised) re-run here. The DTLS receive loop and "
+         "rtcrtpreceiver per-packet work are exercised by the oracle only: a real video RTCRtpReceiver is fed the RTP "
+         "datagrams (also from 3 / 33 / 70 / 300 synchronisation sources) and then runs one round of its own RTCP "
+         "reporting loop, whose output must be parsable and cover every source; a real RTCRtpSender is fed the RTCP.",
     technique="Coq proof (totality of fuelled/structural parsers over all byte lists) + extracted-OCaml "
               "correspondence + live fault-injection oracle",
 )
